@@ -57,6 +57,43 @@ def generate(seed, num, maxq=5, maxlen=14, spec="GenSpec"):
     return [json.loads(l) for l in open(dump)], False
 
 
+def wide(seed, num):
+    """WideSpec over QBasis: QRuntime's actions on a 12-qubit register kept as a bit string (basis-preserving gates), so that
+    two-digit simulator indices occur. QRuntimeB / MCQRuntimeB are QRuntime / MCQRuntime with 'EXTENDS QSim' replaced by
+    'EXTENDS QBasis'; MCQBasis checks first that QBasis agrees with QSim on basis states."""
+    key = vlib.sha(vlib.spec_hash(*(SPEC_FILES + ["QBasis.tla", "MCQBasis.tla"])), "wide", seed, num)
+    d = vlib.cache_dir("qrtwide", key)
+    dump = os.path.join(d, "beh.ndjson")
+    if os.path.exists(dump):
+        return [json.loads(l) for l in open(dump)]
+    shutil.rmtree(d, ignore_errors=True)
+    os.makedirs(d)
+    for f in os.listdir(vlib.SPEC):
+        if f.endswith(".tla"):
+            shutil.copy(os.path.join(vlib.SPEC, f), d)
+    rt = open(os.path.join(d, "QRuntime.tla")).read()
+    assert rt.count("MODULE QRuntime ") == 1 and rt.count("EXTENDS QSim,") == 1
+    open(os.path.join(d, "QRuntimeB.tla"), "w").write(rt.replace("MODULE QRuntime ", "MODULE QRuntimeB ").replace("EXTENDS QSim,", "EXTENDS QBasis,"))
+    mc = open(os.path.join(d, "MCQRuntime.tla")).read()
+    assert mc.count("MODULE MCQRuntime ") == 1 and mc.count("EXTENDS QRuntime,") == 1
+    open(os.path.join(d, "MCQRuntimeB.tla"), "w").write(mc.replace("MODULE MCQRuntime ", "MODULE MCQRuntimeB ").replace("EXTENDS QRuntime,", "EXTENDS QRuntimeB,"))
+    cfg = os.path.join(d, "refine.cfg")
+    open(cfg, "w").write("SPECIFICATION Spec\n")
+    r = vlib.tlc("MCQBasis.tla", cfg, workers=1, timeout=900, cwd=d)
+    vlib.tlc_ok(r, "MCQBasis (QBasis agrees with QSim on basis states)")
+    cfg = os.path.join(d, "wide.cfg")
+    open(cfg, "w").write("SPECIFICATION WideSpec\nCONSTANTS MaxQ = 12\n MaxLen = 34\nINVARIANTS AllInv DumpDone\n")
+    tmp = dump + ".tmp"
+    r = vlib.tlc("MCQRuntimeB.tla", cfg, env={"QRT_DUMP": tmp}, workers=1, deadlock=False, timeout=3000, cwd=d,
+                 simulate="num=%d" % num, extra=["-depth", "80", "-seed", str(seed)], java_opts=["-Xss256m"])
+    vlib.tlc_ok(r, "MCQRuntimeB wide generator")
+    os.replace(tmp, dump)
+    for f in os.listdir(d):
+        if f.endswith(".tla"):
+            os.remove(os.path.join(d, f))
+    return [json.loads(l) for l in open(dump)]
+
+
 def scripted():
     """PairSpec explored exhaustively by TLC (BFS): every finished behaviour of the scripted release family."""
     key = vlib.sha(vlib.spec_hash(*SPEC_FILES), "pairspec")
@@ -83,7 +120,8 @@ def run(tier, seed):
     behs, cached = generate(seed, num)
     rel, _ = generate(seed + 7, num // 3, spec="RelSpec")
     scr = scripted()
-    behs = behs + rel + scr
+    wid = wide(seed + 11, 40 if tier == "quick" else 400)
+    behs = behs + rel + scr + wid
     jobs, infos = [], {}
     for i, b in enumerate(behs):
         src, info = qrender.render(b)
